@@ -25,6 +25,7 @@ import (
 	"github.com/idena-network/idena-go/blockchain/types"
 	"github.com/idena-network/idena-go/blockchain/validation"
 	"github.com/idena-network/idena-go/common"
+	"github.com/idena-network/idena-go/config"
 	"github.com/idena-network/idena-go/core/state"
 	"github.com/idena-network/idena-go/stats/collector"
 
@@ -37,6 +38,7 @@ type c02case struct {
 	Seed   int64 `json:"seed"`
 	Blocks int   `json:"blocks"`
 	Boot   bool  `json:"bootstrap"` // nobody is validated at genesis (network size 0: god-only bootstrap), contracts from the first block
+	V11    bool  `json:"v11,omitempty"` // consensus v11 (upgrade 12 off): the proposer dry-runs wasm transactions (tryExecuteTx) before it applies them
 	Shards int   `json:"shards"` // > 1: a genesis of several equally sized shards; key holders without identity get invited and activate
 }
 
@@ -63,6 +65,19 @@ func c02run(c *hx.Ctx, cs c02case) error {
 			w.AddFresh(6)
 			w.Sharded(cs.Shards)
 			o.Onboard, o.MoreTypes = true, true
+		})
+	} else if cs.V11 {
+		// the last configuration in which the building path differs from the validating path by more than filtering: wasm
+		// transactions (with amounts, also failing ones) are dry-run by the proposer first
+		p, err = pairfx.NewPairWith(cs.Seed, true, 8, func(w *chainfx.World, o *chainfx.HistoryOpts) {
+			prev := w.Opts.Tweak
+			w.Opts.Tweak = func(cfg *config.Config) {
+				if prev != nil {
+					prev(cfg)
+				}
+				cfg.Consensus.EnableUpgrade12 = false
+			}
+			o.Contracts, o.MoreTypes = true, true
 		})
 	} else {
 		// real embedded contracts (deploy / call / terminate through the real VM): gas beyond the size gas, receipts
@@ -593,13 +608,14 @@ func init() {
 		}
 		c.Line("fact propose-rederives-on-clean-state "+pf, impl)
 		c.Rep.Rule = "two real replicas, histories over >=2 epochs incl. ceremonies; per block: candidate lists = A's pool list and an adversarial list (shuffled, stale, future-nonce, duplicate, conflicting: overspend chains, kill+later txs, double invitations, delegation/online flapping, payloads crossing the gas cap); evaluation = one candidate list through real filterTxs + processTxs + reference; distinct non-trivial = lists with >=2 candidates of which at least one was skipped"
-		nh := c.Scale(4, 120)
+		nh := c.Scale(5, 150)
 		for i := 0; i < nh; i++ {
 			cs := c02case{Seed: c.Seed*1000 + int64(i), Blocks: 140}
-			if i%2 == 1 {
+			if i%5 == 4 {
+				cs.V11 = true
+			} else if i%2 == 1 {
 				cs.Shards = 3 + i%4/2
-			}
-			if i%4 == 2 {
+			} else if i%4 == 2 {
 				cs.Boot = true
 			}
 			if err := c02run(c, cs); err != nil {
